@@ -533,8 +533,13 @@ def r1_tables(L, T):
 
 def lookup_sites(L, tu, relfile, rule="C11.R1"):
     """Every use of <layout>->frames in a parsed TU must be the lookup
-    frames[x % <same layout>->period]."""
+    frames[x % <same layout>->period].  A function whose lookup goes through
+    one of its own parameters of type `struct l1sched_tdma_multiframe *`
+    (never reassigned) is a lookup helper: the obligation is decided on its
+    body once and instantiated at every call site with the caller's layout
+    argument (one level of inlining); call sites count as lookup sites."""
     count = 0
+    helpers = {}       # function name -> (parameter index, parameter name, ok, found-text, line)
     for fname, f in body_funcs(tu):
         uses = [n for n in walk(tu.body(f)) if kind(n) == "MemberExpr" and n.get("name") == "frames" and
                 "l1sched_tdma_multiframe" in strip(kids(n)[0]).get("type", {}).get("qualType", "")]
@@ -543,6 +548,7 @@ def lookup_sites(L, tu, relfile, rule="C11.R1"):
         L.fn(relfile, fname)
         loc = Locals(tu, f)
         g = CCFG(tu, f)
+        params = tu.fparams(f)
         for m in uses:
             p = tu.parent.get(id(m))
             while p is not None and kind(p) in ("ImplicitCastExpr", "ParenExpr"):
@@ -558,11 +564,17 @@ def lookup_sites(L, tu, relfile, rule="C11.R1"):
             else:
                 raise AnalysisError("%s(): the frames pointer of a layout is used outside a table lookup (%s); unclassifiable" % (
                     fname, kind(p)))
-            count += 1
             base = rtext(loc, kids(m)[0])
+            # is the layout one of the function's own (never reassigned) parameters?
+            hp = None
+            for pi, pd in enumerate(params):
+                if pd.get("name") == base and "l1sched_tdma_multiframe" in pd.get("type", {}).get("qualType", "") and \
+                        not loc.defs.get(pd["id"]):
+                    hp = pi
+            if hp is None:
+                count += 1
             e = strip(idx)
-            via = None
-            if kind(e) == "DeclRefExpr" and loc.is_local(e):
+            if kind(e) == "DeclRefExpr" and loc.is_local(e) and not loc.is_param(e):
                 s = loc.single(e)
                 if s is None:
                     raise AnalysisError("%s(): index variable `%s` of the frame lookup has %s definitions; unclassifiable" % (
@@ -574,7 +586,6 @@ def lookup_sites(L, tu, relfile, rule="C11.R1"):
                 if vt in ("int8_t", "char", "signed char", "bool", "_Bool"):
                     L.ob(rule, relfile, fname, "frame lookup: index variable can hold every value below the period",
                          "type with range >= 0..254", vt, False, tu.line(m))
-                via = ctext(e)
                 e = strip(s[0])
             key = "frame lookup in the layout `%s`: index is `x %% <that layout>->period`" % base
             want = "x %% %s->period" % base
@@ -586,12 +597,45 @@ def lookup_sites(L, tu, relfile, rule="C11.R1"):
                 if ok and not (ut.startswith("unsigned") or ut in ("uint32_t", "uint64_t", "size_t", "uint16_t", "uint8_t")):
                     raise AnalysisError("%s(): frame lookup index `%s` is a signed remainder (%s); cannot bound it" % (
                         fname, ctext(e), ut))
-                L.ob(rule, relfile, fname, key, want, found, ok, tu.line(m))
             else:
                 if kind(e) in ("CallExpr", "ConditionalOperator"):
                     raise AnalysisError("%s(): frame lookup index `%s` is not a remainder expression; unclassifiable" % (
                         fname, ctext(e)[:60]))
-                L.ob(rule, relfile, fname, key, want, ctext(e)[:80], False, tu.line(m))
+                ok, found = False, ctext(e)[:80]
+            L.ob(rule, relfile, fname, key, want, found, ok, tu.line(m))
+            if hp is not None:
+                if fname in helpers:
+                    # several lookups in one helper: all must hold
+                    ok = ok and helpers[fname][2]
+                helpers[fname] = (hp, base, ok, found, tu.line(m))
+    # call sites of the helpers, with the caller's layout argument substituted
+    if helpers:
+        for fname, f in body_funcs(tu):
+            loc = None
+            for hname, (hp, pname, ok, found, hline) in sorted(helpers.items()):
+                for c in calls_to(tu.body(f), hname):
+                    args = call_args(c)
+                    if len(args) <= hp:
+                        raise AnalysisError("%s(): call of %s with too few arguments" % (fname, hname))
+                    if loc is None:
+                        loc = Locals(tu, f)
+                        L.fn(relfile, fname)
+                    arg = rtext(loc, args[hp])
+                    count += 1
+                    sub = re.sub(r"\b%s\b" % re.escape(pname), lambda _m: arg, found)
+                    L.ob(rule, relfile, fname,
+                         "frame lookup in the layout `%s` (through %s()): index is `x %% <that layout>->period`" % (arg, hname),
+                         "x %% %s->period" % arg, sub, ok, tu.line(c))
+        # a helper's address must not escape (it would be callable with an unknown layout elsewhere)
+        for fname, f in body_funcs(tu):
+            for n in walk(tu.body(f)):
+                if kind(n) == "DeclRefExpr" and n.get("referencedDecl", {}).get("name") in helpers:
+                    par = tu.parent.get(id(n))
+                    while par is not None and kind(par) in ("ImplicitCastExpr", "ParenExpr"):
+                        par = tu.parent.get(id(par))
+                    if kind(par) != "CallExpr" or strip(kids(par)[0]) is not n:
+                        raise AnalysisError("%s(): lookup helper %s is used other than by a direct call; unclassifiable" % (
+                            fname, n["referencedDecl"]["name"]))
     return count
 
 
@@ -1052,7 +1096,9 @@ def r3_trigger(L, FW, latency):
     def conj(x):
         return conj(x[1]) + conj(x[2]) if x[0] == "and" else [x]
     parts = conj(t)
-    main = [x for x in parts if x[0] == "cmp" and x[1] == "==" and x[2][0] == "mod" and x[3][0] == "mod"]
+    def is_diff(x):
+        return x[0] == "cmp" and x[1] == "==" and X.C(0) in (x[2], x[3]) and "mod" in (x[2][0], x[3][0])
+    main = [x for x in parts if (x[0] == "cmp" and x[1] == "==" and x[2][0] == "mod" and x[3][0] == "mod") or is_diff(x)]
     if len(parts) > 1 and len(main) == 1:
         L.ob("C11.R3", F_FW, fname, "trigger: no condition besides the frame-number comparison decides whether a row's set is queued",
              [], [X.show(x) for x in parts if x is not main[0]], False, tu.line(call))
@@ -1073,6 +1119,65 @@ def r3_trigger(L, FW, latency):
                  "((l1s.current_time.fn + A) mod %s->modulo) == (%s->frame_nr mod %s->modulo)" % (sname, sname, sname),
                  X.show(t), False, tu.line(call))
             return
+    elif is_diff(t):
+        # folded form ((fn + A - frame_nr) mod modulo) == 0: equal to the two-remainder form over the
+        # integers; in C it is only if the subtraction cannot wrap (or the word size is a multiple of modulo)
+        m = t[2] if t[2][0] == "mod" else t[3]
+        co, c = X.linear(m[1])
+        fnk = [k for k in co if k.endswith("current_time.fn")]
+        canon = "((l1s.current_time.fn + A) mod %s->modulo) == (%s->frame_nr mod %s->modulo)" % (sname, sname, sname)
+        if m[2] != X.V("%s->modulo" % sname) or len(fnk) != 1 or co != {fnk[0]: 1, "%s->frame_nr" % sname: -1}:
+            if m[2] == X.V("%s->modulo" % sname) and len(fnk) == 1 and set(co) == {fnk[0], "%s->frame_nr" % sname}:
+                L.ob("C11.R3", F_FW, fname, key, canon, X.show(t), False, tu.line(call))
+                return
+            raise AnalysisError("%s(): trigger condition `%s` is outside the recognised normal forms; unclassifiable" % (
+                fname, X.show(t)[:100]))
+        A = c
+        # the C type the difference is computed in
+        exprs = [trig[0][0]]
+        seen = set()
+        k = 0
+        while k < len(exprs):
+            for x in walk(exprs[k]):
+                if kind(x) == "DeclRefExpr" and loc.is_local(x) and not loc.is_param(x):
+                    sd = loc.single(x)
+                    if sd is not None and pure(sd[0]) and id(sd[0]) not in seen:
+                        seen.add(id(sd[0]))
+                        exprs.append(sd[0])
+            k += 1
+        mods = [x for e in exprs for x in walk(e) if kind(x) == "BinaryOperator" and x.get("opcode") == "%" and
+                rtext(loc, kids(x)[1]) == "%s->modulo" % sname]
+        if len(mods) != 1:
+            raise AnalysisError("%s(): cannot locate the remainder operation of the trigger; unclassifiable" % fname)
+        lt = strip(kids(mods[0])[0]).get("type", {}).get("qualType", "")
+        bits = {"unsigned int": 32, "uint32_t": 32, "unsigned long": 32, "uint16_t": 16, "unsigned short": 16,
+                "unsigned long long": 64, "uint64_t": 64}.get(lt)
+        if bits is None and lt not in ("int", "long", "int32_t", "long long", "int64_t"):
+            raise AnalysisError("%s(): trigger difference is computed in type `%s`; cannot model it" % (fname, lt))
+        witness = None
+        if bits is not None:
+            W = 1 << bits
+            for task in sorted(FW.tasks, key=lambda q: FW.tasks[q]):
+                _, rows = FW.task_rows(task)
+                for i, r in enumerate(rows or []):
+                    mo = r["modulo"]
+                    if mo < 1 or W % mo == 0:
+                        continue
+                    for fn0 in range(0, max(0, r["frame_nr"] - A)):
+                        got = ((fn0 + A - r["frame_nr"]) % W) % mo == 0
+                        true = (fn0 + A) % mo == r["frame_nr"] % mo
+                        if got != true:
+                            witness = ("%s row %d (frame_nr %d, modulo %d) at fn %d: fn+%d-frame_nr < 0 wraps to %d (%s, 2^%d mod %d = %d): "
+                                       "set %s although (fn+%d) mod %d %s frame_nr mod %d" % (
+                                           task, i, r["frame_nr"], mo, fn0, A, (fn0 + A - r["frame_nr"]) % W, lt, bits, mo, W % mo,
+                                           "queued" if got else "not queued", A, mo, "!=" if got else "==", mo))
+                            break
+                    if witness:
+                        break
+                if witness:
+                    break
+        L.ob("C11.R3", F_FW, fname, key, canon.replace("+ A", "+ %d" % A),
+             X.show(t) if witness is None else "unsigned wrap in the folded difference: %s" % witness, witness is None, tu.line(call))
     else:
         raise AnalysisError("%s(): trigger condition `%s` is not a comparison of two remainders; unclassifiable" % (
             fname, X.show(t)[:100]))
